@@ -20,9 +20,9 @@ CLAIMS = {
                      "projective equality shape; every field-wise writer/selector of an EdwardsPoint touches all four coordinates consistently; identity/neg/cofactor/small-order/torsion-free wiring; coordinates and internal modules not public. "
                      "The group law (formula completeness, exceptional points) is NOT decided",
                 note="partial: necessary structural conditions in every backend; algebra of the formulas is value-level", ref="3.6, 4 C03"),
-    "C07": dict(cat="other", tech="known-bits abstract interpretation of clamp_integer (complete) + PATH rules over resolved MIR",
+    "C07": dict(cat="other", tech="known-bits abstract interpretation of clamp_integer (complete) + polynomial-multiple abstract domain over the Montgomery ladder (LADDER) + PATH rules over resolved MIR",
                 text="clamp_integer is bit-exactly RFC 7748 clamping (decided completely); all clamped entry points multiply by Scalar{clamp(input)}; x25519-dalek reaches multiplications only through mul_clamped/mul_base_clamped with the documented shapes; "
-                     "ladder: bits_le().rev().skip(1), per-bit swap(prev^cur)+step, final swap, start (identity,(u:1)), result x0.as_affine(); to_edwards rejects decoded u=-1 before inverting and puts sign in bit 255; Montgomery eq/hash canonicalise; contributory = !identity; key conversions. Ladder-step and map arithmetic are not decided",
+                     "ladder: in the LADDER abstract domain (points = multilinear-polynomial multiples of the base point over the symbolic scalar bits; conditional_swap and differential_add_and_double by their documented contracts, the latter's precondition Q-P = +-base checked at each of the 255 steps) mul_bits_be and &MontgomeryPoint * &Scalar evaluate to (sum_{j<255} 2^j b_j) * P, independently of the loop's syntax; to_edwards rejects decoded u=-1 before inverting and puts sign in bit 255; Montgomery eq/hash canonicalise; contributory = !identity; key conversions. Ladder-step and map arithmetic are not decided",
                 note="partial/structural except clamp_integer (complete)", ref="3.2 known-bits, 3.6, 4 C07"),
     "C08": dict(cat="other", tech="ORDER of digest updates per hash session on every CFG path + call-identity data flow + dominance (PATH engine)",
                 text="raw_sign / raw_sign_prehashed: r = H([dom2(1,ctx)] prefix||M), R = compress(mul_base(r)), k = H([dom2] R||A||M), s = k*a + r, signature (R,s); context > 255 rejected before hashing (and in Context::new); "
@@ -110,6 +110,7 @@ m = {
         {"name": "ABSINT", "path": "lib/absint.py lib/absint_models.py lib/eng_absint.py", "serves_properties": ["C01", "C02", "C04", "C11", "C15"], "kind_free_text": "interval abstract interpreter over checked-mode MIR with inductive type invariants"},
         {"name": "EXPCHAIN", "path": "lib/eng_expchain.py", "serves_properties": ["C01", "C02"], "kind_free_text": "monomial abstract domain (exponent vectors) over the addition chains, on the generic MIR interpreter"},
         {"name": "LINCOMB", "path": "lib/eng_lincomb.py", "serves_properties": ["C04"], "kind_free_text": "formal linear combinations (coefficient x symbolic digit x symbolic point) on the generic MIR interpreter"},
+        {"name": "LADDER", "path": "lib/eng_ladder.py", "serves_properties": ["C07"], "kind_free_text": "multilinear-polynomial multiples of the base point over symbolic scalar bits, on the generic MIR interpreter"},
         {"name": "PATH", "path": "lib/mirlib.py lib/pathlib2.py lib/ex.py", "serves_properties": [p for p in ["C03", "C06", "C07", "C08", "C09", "C13", "C16", "C17"] if p in CLAIMS],
          "kind_free_text": "dominance (edge-removal reachability), value-flow slices, expression trees, ORDER, guard implication"},
     ],
